@@ -79,7 +79,8 @@ CHECKS = {
     "C13": dict(engine="store_mc", cat="model_checking",
                 tech="explicit-state history enumeration + exhaustive schedule DFS (hand-rolled executor over hook H3) with linearizability oracle",
                 text="All operation histories up to the completed depth on both backends against a map-with-expiry reference; all "
-                     "task interleavings at lock-acquisition granularity of 2-3 task harnesses on the real in-memory store, "
+                     "task interleavings at lock-acquisition granularity of 2-3 task harnesses on the real in-memory store (per-harness cap on executed "
+                     "schedules, never hit on the unchanged tree, reported when hit), "
                      "checked for linearizability; all op-granular merges on SQLite; all statement-granular schedules on SQLite "
                      "(turnstile at every connection acquisition of the sqlx pool), checked for linearizability.",
                 ref="§4 C13", note="Timestamp::now()/unixepoch() are not owned: TTL 0 / 1 h and a same-second guard make verdicts "
@@ -100,7 +101,8 @@ CHECKS = {
                 tech="controlled-scheduler exploration of the real acceptor/worker threads at checkpoints (hook H2): exhaustive BFS of a shadow model, every maximal schedule replayed against the implementation",
                 text="All orderings of checkpoint releases and environment actions (connect, send, open gate, shutdown call, late connect) for "
                      "1-2 workers x 1-3 clients x <=2 requests per connection x {Graceful generous, Graceful short, Forced}, plus bulk "
-                     "configurations (9-31 interchangeable connections filling the worker queues, symmetry-reduced and phased); every model "
+                     "configurations (9-31 interchangeable connections filling the worker queues, symmetry-reduced and phased; the queue capacity is "
+                     "MEASURED on the implementation and the configurations scale with it, up to 80 connections); every model "
                      "schedule is executed on a fresh real server and every predicted event is awaited and compared (trace validation); "
                      "oracle on observed facts: requests received before the call are answered, no accept after the call, resolution times.",
                 ref="§4 C16, Appendix C", note="Interleavings inside tokio/hyper/kernel below checkpoint granularity are not enumerated; real time is used "
